@@ -17,11 +17,13 @@ pub struct Case {
     pub bpp: u16,
     pub compress: bool,
     pub data: Vec<u8>,
+    /// generator triple (class, index, seed) when the case was generated: replays regenerate long data from it
+    pub gen: Option<[u64; 3]>,
 }
 
 impl Case {
     pub fn to_json(&self) -> Value {
-        json!({"class": self.class, "w": self.w, "h": self.h, "bpp": self.bpp, "compress": self.compress,
+        json!({"class": self.class, "w": self.w, "h": self.h, "bpp": self.bpp, "compress": self.compress, "gen": self.gen.map(|g| g.to_vec()),
                "data_len": self.data.len(), "data": hex(&self.data[..self.data.len().min(4096)])})
     }
     fn hash(&self) -> u64 {
@@ -30,6 +32,9 @@ impl Case {
         fnv(&v)
     }
 }
+
+/// what decompress may allocate beyond four times its output (error values, small temporaries)
+const ALLOC_SLACK: usize = 4096;
 
 /// Evaluate one case against the real decompressor under all monitors.
 pub fn check_case(c: &Case, rep: &mut Report) {
@@ -64,8 +69,9 @@ pub fn check_case(c: &Case, rep: &mut Report) {
             rep.hist("err");
         }
     }
-    // allocation proportionality: no more than 4x the output size + 64 KiB (+ the input itself, which the event owns)
-    let bound = 4 * expect + 65536 + c.data.len();
+    // allocation proportionality: no more than 4x the output size + a small constant; the input belongs to the event and
+    // decompress has no reason to allocate in proportion to it
+    let bound = 4 * expect + ALLOC_SLACK;
     if alloc.max_request > bound || alloc.peak_live as usize > bound + expect {
         if viol.is_none() {
             viol = Some((format!("C08/decompress/{}/alloc-out-of-proportion", mode), format!("max request {} peak {} for output size {}", alloc.max_request, alloc.peak_live, expect)));
@@ -248,6 +254,14 @@ fn geom(r: &mut Rng) -> (u16, u16) {
 
 /// Build case `idx` of class `class` (deterministic in seed).
 pub fn make_case(class: u64, idx: u64, seed: u64) -> Case {
+    let mut c = make_case_inner(class, idx, seed);
+    c.gen = Some([class, idx, seed]);
+    c
+}
+
+const EXTREME: [u16; 17] = [1, 2, 255, 256, 257, 4095, 4096, 4097, 8191, 8192, 8193, 16383, 16384, 16385, 32768, 65534, 65535];
+
+fn make_case_inner(class: u64, idx: u64, seed: u64) -> Case {
     let mut r = Rng::derive(seed, "C08", class, idx);
     match class {
         0 | 7 => {
@@ -260,12 +274,12 @@ pub fn make_case(class: u64, idx: u64, seed: u64) -> Case {
             let g = rest / 2;
             let w = gset[(g as usize) % gset.len()];
             let h = gset[(g as usize / gset.len()) % gset.len()];
-            Case { class: if class == 0 { "exhaustive<=2" } else { "exhaustive<=3" }, w, h, bpp: if mode == 0 { 16 } else { 32 }, compress: true, data: short_string(s) }
+            Case { class: if class == 0 { "exhaustive<=2" } else { "exhaustive<=3" }, w, h, bpp: if mode == 0 { 16 } else { 32 }, compress: true, data: short_string(s), gen: None }
         }
         1 => {
             let (w, h) = geom(&mut r);
             let data = hostile_rle16(&mut r, w as usize, h as usize);
-            Case { class: "grammar-rle16", w, h, bpp: 16, compress: true, data }
+            Case { class: "grammar-rle16", w, h, bpp: 16, compress: true, data, gen: None }
         }
         2 => {
             let (mut w, mut h) = geom(&mut r);
@@ -274,14 +288,14 @@ pub fn make_case(class: u64, idx: u64, seed: u64) -> Case {
                 h = h.min(200);
             }
             let data = hostile_planar(&mut r, w as usize, h as usize);
-            Case { class: "grammar-planar", w, h, bpp: 32, compress: true, data }
+            Case { class: "grammar-planar", w, h, bpp: 32, compress: true, data, gen: None }
         }
         3 => {
             let (w, h) = geom(&mut r);
             let n = r.range(0, 4096) as usize;
             let data = r.bytes(n);
             let bpp = *r.pick(&[16u16, 32]);
-            Case { class: "random-bytes", w, h, bpp, compress: r.chance(3, 4), data }
+            Case { class: "random-bytes", w, h, bpp, compress: r.chance(3, 4), data, gen: None }
         }
         4 => {
             // uncompressed, data length around the exact size
@@ -296,13 +310,69 @@ pub fn make_case(class: u64, idx: u64, seed: u64) -> Case {
                 4 => exact / 2,
                 _ => exact + r.range(0, 64) as usize,
             };
-            Case { class: "uncompressed", w, h, bpp, compress: false, data: r.bytes(n.min(300_000)) }
+            Case { class: "uncompressed", w, h, bpp, compress: false, data: r.bytes(n.min(300_000)), gen: None }
         }
         5 => {
             let (w, h) = geom(&mut r);
             let bpp = if r.chance(1, 2) { *r.pick(&BPPS) } else { r.u16() };
             let n = r.range(0, 64) as usize;
-            Case { class: "any-bpp", w, h, bpp, compress: r.chance(1, 2), data: r.bytes(n) }
+            Case { class: "any-bpp", w, h, bpp, compress: r.chance(1, 2), data: r.bytes(n), gen: None }
+        }
+        8 => {
+            // one very long dimension (every power of two up to 65535 and its neighbours), the other 1..3
+            let long = EXTREME[(idx % EXTREME.len() as u64) as usize] as usize;
+            let short = 1 + (idx / EXTREME.len() as u64 % 3) as usize;
+            let (w, h) = if (idx / (EXTREME.len() as u64 * 3)) % 2 == 0 { (long, short) } else { (short, long) };
+            let kind = (idx / (EXTREME.len() as u64 * 6)) % 6;
+            let (bpp, compress, data) = match kind {
+                0 => {
+                    // conformant planar encoding of a two-valued image
+                    let pal = [r.u8(), r.u8()];
+                    let img: Vec<u8> = (0..w * h * 4).map(|i| pal[(i / 37) % 2]).collect();
+                    let mut st = Vec::new();
+                    (32u16, true, refrle::encode_planar(&img, w, h, &mut r, &mut st))
+                }
+                1 => {
+                    let pal = [r.u16(), r.u16()];
+                    let img: Vec<u16> = (0..w * h).map(|i| pal[(i / 29) % 2]).collect();
+                    (16u16, true, refrle::encode_rle16(&img, w, h, &mut r, 300).0)
+                }
+                2 => (32u16, true, hostile_planar(&mut r, w, h)),
+                3 => (16u16, true, hostile_rle16(&mut r, w, h)),
+                4 => {
+                    let n = w * h * 4 + [0usize, 1, 7][r.below(3) as usize] - (r.chance(1, 4) as usize);
+                    (32u16, false, r.bytes(n))
+                }
+                _ => {
+                    let n = w * h * 2 + [0usize, 1, 7][r.below(3) as usize];
+                    (16u16, false, r.bytes(n))
+                }
+            };
+            Case { class: "extreme-geometry", w: w as u16, h: h as u16, bpp, compress, data, gen: None }
+        }
+        9 => {
+            // small pictures carrying far more data than they need
+            let w = r.below(5) as u16;
+            let h = r.below(5) as u16;
+            let surplus = *r.pick(&[4096usize, 65537, 300_000, 1 << 20]);
+            let bpp = *r.pick(&[16u16, 32]);
+            let compress = r.chance(1, 3);
+            let exact = w as usize * h as usize * (bpp as usize / 8);
+            let mut data = if compress && w > 0 && h > 0 {
+                if bpp == 32 {
+                    let img = r.bytes(w as usize * h as usize * 4);
+                    let mut st = Vec::new();
+                    refrle::encode_planar(&img, w as usize, h as usize, &mut r, &mut st)
+                } else {
+                    let img: Vec<u16> = (0..w as usize * h as usize).map(|_| r.u16()).collect();
+                    refrle::encode_rle16(&img, w as usize, h as usize, &mut r, 300).0
+                }
+            } else {
+                r.bytes(exact)
+            };
+            let fill = r.u8();
+            data.resize(data.len() + surplus, fill);
+            Case { class: "surplus-data", w, h, bpp, compress, data, gen: None }
         }
         _ => {
             // 6: valid encodings of random images, then corrupted
@@ -351,7 +421,7 @@ pub fn make_case(class: u64, idx: u64, seed: u64) -> Case {
                 3 => (w, h.saturating_sub(1)),
                 _ => (w, h),
             };
-            Case { class: "corrupted-valid", w: dw as u16, h: dh as u16, bpp: if use16 { 16 } else { 32 }, compress: true, data }
+            Case { class: "corrupted-valid", w: dw as u16, h: dh as u16, bpp: if use16 { 16 } else { 32 }, compress: true, data, gen: None }
         }
     }
 }
@@ -370,6 +440,8 @@ pub fn run(cfg: &Cfg) -> Report {
         (5, cfg.n(50_000, 1_000_000)),
         (6, cfg.n(200_000, 10_000_000)),
         (7, if cfg.quick() { 0 } else { N_LE3 * 2 * 9 }),
+        (8, cfg.n(17 * 36 * 4, 17 * 36 * 200)),
+        (9, cfg.n(2_000, 100_000)),
     ];
     for (class, n) in plan {
         if !cfg.wants(class) {
@@ -396,6 +468,8 @@ pub fn replay(_cfg: &Cfg, v: &Value) -> Report {
     let c = if v.get("death_case").is_some() {
         let a: Vec<u64> = v["death_case"].as_array().unwrap().iter().map(|x| x.as_u64().unwrap()).collect();
         make_case(a[1], a[2], a[3])
+    } else if let Some(g) = v.get("gen").and_then(|g| g.as_array()).filter(|g| g.len() == 3) {
+        make_case(g[0].as_u64().unwrap_or(0), g[1].as_u64().unwrap_or(0), g[2].as_u64().unwrap_or(1))
     } else {
         Case {
             class: "replay",
@@ -404,6 +478,7 @@ pub fn replay(_cfg: &Cfg, v: &Value) -> Report {
             bpp: v["bpp"].as_u64().unwrap() as u16,
             compress: v["compress"].as_bool().unwrap(),
             data: unhex(v["data"].as_str().unwrap()),
+            gen: None,
         }
     };
     check_case(&c, &mut rep);
